@@ -132,9 +132,14 @@ def run(ctx):
         exp = d.get("expect")
         # a recording that is not a run of the program's intended behaviour: the Go compiler's own
         # error text, or Go's bad-verb marker (the defect fixed by the %g commit, see known_findings)
-        if exp is not None and (exp.startswith("# command-line-arguments") or "%!d(" in exp):
+        if exp is not None and exp.startswith("# command-line-arguments"):
             exp = None
             d["expect"] = None
+        if exp is not None and "%!d(float" in exp:
+            # recorded before the %g fix: Go wrapped each float as %!d(float32=3.5); the value inside
+            # is Go's own %v rendering, which is what the fixed helper prints
+            exp = re.sub(r"%!d\(float(?:32|64)=([^)]*)\)", r"\1", exp)
+            d["expect"] = exp
         if d.get("expect") is not None and not ext:
             n_exp += 1
             m = expected_matches(pid, d["expect"], o["go"])
